@@ -93,7 +93,7 @@ let op_parse f =
   let tailer = if entry = 5 then " live=0 badfree=0" else "" in
   match r with
   | POk u -> Printf.sprintf "parse 0 -1 %s prov=%s%s" (string_of_uri u) (prov_of_uri u) tailer
-  | PSyntax pos -> Printf.sprintf "parse 1 %d clean=1%s" (int_of_nat pos) tailer
+  | PSyntax pos -> Printf.sprintf "parse 1 %d E%s" (int_of_nat pos) tailer
 
 (* ---- conformance suite derived from the model's control automaton -------------------
    Breadth-first search over the control states reachable from CStart (one representative
@@ -159,7 +159,90 @@ let spec_uri f =
   let l = text_of_field_nn f.(1) in
   let ok = matchb uRI_reference l in
   let fd = int_of_nat (first_dead uRI_reference l) in
-  Printf.sprintf "%d %d" (if ok then 1 else 0) fd
+  let eok = if Array.length f > 2 && f.(2) <> "-1" && f.(2) <> "null"
+            then (if errpos_ok uRI_reference l (nat_of_int (int_of_string f.(2))) then 1 else 0) else -1 in
+  Printf.sprintf "%d %d %d" (if ok then 1 else 0) fd eok
+
+let op_spec_split f =
+  let l = text_of_field_nn f.(1) in
+  let u = split_spec l in
+  Printf.sprintf "parse 0 -1 %s prov=%s" (string_of_uri u) (prov_of_uri u)
+
+(* tostring <cap|req> <cwnull> <URI> *)
+let op_tostring f =
+  let pos = ref 3 in
+  match (try Some (read_uri f pos) with Arg_parse_error _ -> None) with
+  | None -> "tostring parse-error 1"
+  | Some u ->
+    let req = int_of_z (chars_required u) in
+    let head = Printf.sprintf "tostring 0 %d" req in
+    if f.(1) = "req" then head ^ " "
+    else begin
+      let cap = int_of_string f.(1) in
+      let cwnull = bool_of_field f.(2) in
+      match to_string u (z_of_int cap) with
+      | TsOk (t, cw, _) ->
+        Printf.sprintf "%s 0 %s %s 1" head (if cwnull then "-" else string_of_int (int_of_z cw)) (field_of_text t)
+      | TsTooLong (nul, _) ->
+        Printf.sprintf "%s 4 %s %s 1" head (if cwnull then "-" else "0") (if cap >= 1 then "_" else "-")
+    end
+
+let prov_owned (u : uri) : string =
+  let cls = function None -> "-" | Some [] -> "e" | Some _ -> (if u.owner then "h" else "i") in
+  String.concat "" (List.map cls [u.scheme; u.userInfo; u.hostText; u.ipFuture; u.portText; u.query; u.fragment])
+  ^ "/" ^ String.concat "" (List.map (fun s -> if s = [] then "e" else (if u.owner then "h" else "i")) u.pathSegs)
+
+let text_tag (u : uri) = " T=" ^ field_of_text (to_text u)
+
+let op_addbase f =
+  let compat = bool_of_field f.(1) in
+  let pos = ref 2 in
+  match (try let r = read_uri f pos in let b = read_uri f pos in Some (r, b) with Arg_parse_error _ -> None) with
+  | None -> "addbase parse-error"
+  | Some (rel, base) ->
+    let (rc, d) = add_base compat rel base in
+    let rc = int_of_n rc in
+    if rc = 0 then Printf.sprintf "addbase 0 %s%s ro=1 live=0 bad=0" (string_of_uri d) (text_tag d)
+    else Printf.sprintf "addbase %d E ro=1 live=0 bad=0" rc
+
+let op_removebase f =
+  let dr = bool_of_field f.(1) in
+  let pos = ref 2 in
+  match (try let r = read_uri f pos in let b = read_uri f pos in Some (r, b) with Arg_parse_error _ -> None) with
+  | None -> "removebase parse-error"
+  | Some (src, base) ->
+    let (rc, d) = remove_base dr src base in
+    let rc = int_of_n rc in
+    if rc = 0 then Printf.sprintf "removebase 0 %s%s ro=1 live=0 bad=0" (string_of_uri d) (text_tag d)
+    else Printf.sprintf "removebase %d E ro=1 live=0 bad=0" rc
+
+let op_normalize f =
+  let mask = int_of_string f.(1) in
+  let owned = bool_of_field f.(2) in
+  let pos = ref 3 in
+  match (try Some (read_uri f pos) with Arg_parse_error _ -> None) with
+  | None -> "normalize parse-error"
+  | Some u ->
+    let u = if owned then make_owner u else u in
+    let before = int_of_n (mask_required u) in
+    let v = normalize (n_of_int mask) u in
+    Printf.sprintf "normalize 0 %d %s%s %d prov=%s ro=1 live=0 bad=0" before (string_of_uri v) (text_tag v)
+      (int_of_n (mask_required v)) (prov_owned v)
+
+let op_makeowner f =
+  let pos = ref 1 in
+  match (try Some (read_uri f pos) with Arg_parse_error _ -> None) with
+  | None -> "makeowner parse-error"
+  | Some u ->
+    let v = make_owner u in
+    Printf.sprintf "makeowner 0 %s%s prov=%s again%s live=0 bad=0" (string_of_uri v) (text_tag v) (prov_owned v) (text_tag v)
+
+let op_equals f =
+  let pos = ref 1 in
+  let rd () = if f.(!pos) = "N" then (incr pos; None) else Some (read_uri f pos) in
+  match (try let a = rd () in let b = rd () in Some (a, b) with Arg_parse_error _ -> None) with
+  | None -> "equals parse-error"
+  | Some (a, b) -> Printf.sprintf "equals %d 1 1" (if equals_uri a b then 1 else 0)
 
 let dispatch (f : string array) : string =
   match f.(0) with
@@ -170,6 +253,13 @@ let dispatch (f : string array) : string =
   | "spec_escform" -> op_spec_escform f
   | "spec_crlf" -> op_spec_crlf f
   | "parse" -> op_parse f
+  | "spec_split" -> op_spec_split f
+  | "tostring" -> op_tostring f
+  | "addbase" -> op_addbase f
+  | "removebase" -> op_removebase f
+  | "normalize" -> op_normalize f
+  | "makeowner" -> op_makeowner f
+  | "equals" -> op_equals f
   | "suite" -> suite (int_of_string f.(1))
   | "spec_uri" -> spec_uri f
   | op -> "?unknown-op " ^ op
